@@ -11,7 +11,7 @@ LEVEL = "model_checking"
 BOUNDS = {"hours_per_series": "N=2 (thorough 3)", "skeletons": "T1,T2,T3,T4,T5,T7,T8", "inductive_invariant": "after every edit on skeletons without a job shared between usage patterns, the live "
           "system has the same value-level dependency graph (ancestors/children by object name and attribute) as the fresh "
           "build: a history of any length over the edit menu reduces to single steps from fresh-equivalent states",
-          "history_depth": "<=2 edits "
+          "history_depth": "<=3 edits (link there-back-there, two objects leaving a shared target in turn; otherwise 2) "
           "(every edit followed by its inverse; link edit followed by numeric edit; seeded sample of other pairs)",
           "edit_menu": "numeric assignment per class/parameter, starts replacement (values/length/start date), "
           "timezone, server_type, fixed_nb_of_instances set/unset, link re-pointing, list assignment and mutators, "
@@ -315,6 +315,17 @@ def plan(tier, seed):
                ("script", dict(skeleton="T9", script=[dict(k="list_op", obj="uj", attr="uj_steps", op="append", args=["step3"]), num("job3", "request_duration")])),
                ("script", dict(skeleton="T9", script=[dict(k="group", edits=[num("job", "data_transferred"), dict(k="link", obj="job", attr="server", target="srv_alt")])])),
                ("script", dict(skeleton="T9", script=[num("job", "data_transferred"), num("job2", "data_transferred")]))]
+    # longer link histories: there-and-back-and-there again, and two objects leaving a shared target in turn
+    L_ = lambda o, a, t: dict(k="link", obj=o, attr=a, target=t)  # noqa
+    histories = [("script", dict(skeleton="T9", script=[L_("job", "server", "srv_alt"), L_("job", "server", "srv"), L_("job", "server", "srv_alt")])),
+                 ("script", dict(skeleton="T9", script=[L_("job2", "server", "srv_alt"), L_("job2", "server", "srv"), L_("job2", "server", "srv_alt")])),
+                 ("script", dict(skeleton="T9", script=[L_("job", "server", "srv_alt"), L_("job2", "server", "srv_alt")])),
+                 ("script", dict(skeleton="T9", script=[L_("job2", "server", "srv_alt"), L_("job", "server", "srv_alt"), L_("job2", "server", "srv")])),
+                 ("script", dict(skeleton="T9", script=[L_("up2", "network", "net"), L_("up2", "network", "net2"), L_("up2", "network", "net")])),
+                 ("script", dict(skeleton="T9", script=[L_("up", "country", "my"), L_("up2", "country", "fr"), L_("up", "country", "fr")])),
+                 ("script", dict(skeleton="T9", script=[dict(k="list_op", obj="step", attr="jobs", op="append", args=["job_alt"]),
+                                                        dict(k="list_op", obj="step", attr="jobs", op="remove", args=["job_alt"]),
+                                                        dict(k="list_op", obj="step", attr="jobs", op="append", args=["job_alt"])]))]
     # link edit followed by a numeric edit on a touched object
     follow = [("script", dict(skeleton="T8", script=[dict(k="link", obj="job", attr="server", target="srv_alt"), num("srv_alt", "ram")])),
               ("script", dict(skeleton="T8", script=[dict(k="link", obj="up", attr="network", target="net_alt"), num("net_alt", "bandwidth_energy_intensity")])),
@@ -335,9 +346,9 @@ def plan(tier, seed):
              ("script", dict(skeleton="T1", script=[dict(k="fixed", obj="st", val="sym"), dict(k="fixed", obj="st", val=None)]))]
     if tier == "quick":
         rnd.shuffle(shared)
-        p += shared[:14] + links9 + follow9 + links[:8] + follow[:3] + groups + fixed
+        p += shared[:14] + links9 + follow9 + histories + links[:8] + follow[:3] + groups + fixed
     else:
-        p += shared + links9 + follow9 + links + follow + groups + fixed
+        p += shared + links9 + follow9 + histories + links + follow + groups + fixed
         # all ordered pairs of single numeric edits on T1 touching different objects: seeded sample of 60
         singles = [e for e, inv in single_edits("T1") if e["k"] == "num"]
         pairs = [(a, b) for a in singles for b in singles if a["obj"] != b["obj"]]
